@@ -1,5 +1,5 @@
 SPECIFICATION Spec
-CONSTANTS KMax = 10  Sub = 4  Peaks = {512, 4096, 32768}  Steeps = {1, 2, 6}  Thr = 8  Rule = "first_above"  Relative = FALSE  TailPermille = 10
+CONSTANTS KMax = 10  Sub = 4  Peaks = {512, 4096, 32768}  Steeps = {1, 2, 6}  Thr = 8  Rule = "first_above"  Relative = FALSE  TailPermille = 10  Gaps = {0}
 CHECK_DEADLOCK FALSE
 INVARIANT StopRule
 INVARIANT NoTailTruncation
